@@ -482,6 +482,11 @@ def vc_dict(*a, **k):
     from .containers import SymDict
     if not a and not k:
         return SymDict()
+    if len(a) == 1 and not k and is_symbolic_iterable(a[0]) and has_symbolic_len(a[0]):
+        # dict(<sequence of (key, value) pairs of symbolic length>), e.g. dict(zip(keys, values))
+        from .symmap import SymMap
+        it = indexable(a[0])
+        return SymMap(vc_len(it), lambda t: tuple(item_of(it, t)))
     return builtins.dict(*a, **k)
 
 
